@@ -219,6 +219,19 @@ macro_rules! radix {
 
                 match radix {
                     2 | 4 | 16 | 256 => {
+                        // leading zeros (at the most significant end) do not contribute to the value, so must not count towards the length check
+                        let mut input_digits_len = input_digits_len;
+                        while input_digits_len > 0 {
+                            let idx = if BE {
+                                buf.len() - input_digits_len
+                            } else {
+                                input_digits_len - 1 + if leading_sign { 1 } else { 0 }
+                            };
+                            if Self::byte_to_digit::<FROM_STR>(buf[idx]) != 0 {
+                                break;
+                            }
+                            input_digits_len -= 1;
+                        }
                         let mut out = Self::ZERO;
                         let base_digits_per_digit = (digit::$Digit::BITS_U8 / ilog2(radix)) as usize;
                         let full_digits = input_digits_len / base_digits_per_digit as usize;
@@ -226,8 +239,9 @@ macro_rules! radix {
                         let radix_u8 = radix as u8;
 
                         if full_digits > N || full_digits == N && remaining_digits != 0 {
-                            let mut i = if leading_sign { 1 } else { 0 };
-                            while i < N * base_digits_per_digit + if leading_sign { 1 } else { 0 } {
+                            let start = if BE { buf.len() - input_digits_len } else if leading_sign { 1 } else { 0 };
+                            let mut i = start;
+                            while i < N * base_digits_per_digit + start {
                                 if Self::byte_to_digit::<FROM_STR>(buf[i]) >= radix_u8 {
                                     return Err(ParseIntError {
                                         kind: IntErrorKind::InvalidDigit,
